@@ -459,6 +459,20 @@ def jStmt : Nat → List JTok → Option (JS × List JTok)
       | _ => none
 end
 
+mutual
+/-- `with` statements anywhere in a body (class bodies are strict-mode code, where `with` is a SyntaxError) -/
+def JS.hasWith : JS → Bool
+  | .with _ _ => true
+  | .ifs _ t e => JS.hasWithL t || JS.hasWithL e
+  | .while _ b => JS.hasWithL b
+  | .for3 _ _ _ _ b => JS.hasWithL b
+  | .forOf _ _ b => JS.hasWithL b
+  | _ => false
+def JS.hasWithL : List JS → Bool
+  | [] => false
+  | s :: ss => s.hasWith || JS.hasWithL ss
+end
+
 /-- parameter list after `(` up to and including `)` -/
 def jParams : List JTok → Option (List JE × List JTok)
   | .p .rp :: r => some ([], r)
@@ -500,7 +514,10 @@ def jTops (fuel : Nat) : Nat → List JTok → Option (List JTop)
       | .id n :: .id e :: .id b :: .p .lc :: r1 =>
         if e = "extends".toList then
           match jMethods fuel (r1.length + 1) r1 with
-          | some (ms, r2) => (jTops fuel k r2).map fun ts => .cls n b ms :: ts
+          | some (ms, r2) =>
+            -- a class body is strict-mode code: `with` is not allowed in it
+            if ms.any (fun m => JS.hasWithL m.body) then none
+            else (jTops fuel k r2).map fun ts => .cls n b ms :: ts
           | none => none
         else none
       | _ => none
@@ -517,7 +534,7 @@ def readJsFunc (isMethod : Bool) (text : List Char) : Option JFunc :=
     let ts' := if isMethod then some ts else (match ts with | .id s :: r => if s = "function".toList then some r else none | _ => none)
     ts'.bind fun ts'' =>
       match jMethod (4 * ts''.length + 16) ts'' with
-      | some (f, []) => some f
+      | some (f, []) => if isMethod && JS.hasWithL f.body then none else some f
       | _ => none
 
 def readJsExpr (text : List Char) : Option JE :=
